@@ -12,8 +12,6 @@
                                       Any, or, sub, inv, chr, tok)
 Arguments that are not lists are JSON scalars passed through (str, int, bool, None).
 """
-from . import classmodel as cm
-
 CLASS_HEADS = {"AnyFrom", "AnyButFrom", "AnyBetween", "AnyButBetween", "named", "Any",
                "or", "sub", "inv", "chr", "tok"}
 
